@@ -46,7 +46,7 @@ theorem code_m4_constructors (s x y z : K) (t : V3 K) (p : P3 K) (v : V3 K) :
   exact ⟨_, _, _, Trace.C01.t_m4_from_scale s, Trace.C01.t_m4_from_nonuniform_scale x y z, Trace.C01.t_m4_from_translation t,
     h.1, h.2.1, h.2.2.1, h.2.2.2.2.1, h.2.2.2.2.2⟩
 
-/-- `transform_vector` / `transform_point` of a 4x4 matrix as computed: the vector action is linear and ignores the
+/-- `transform_vector` of a 4x4 matrix as computed (points: `E2E/C08.lean`): the vector action is linear and ignores the
 translation column -/
 theorem code_m4_transform_vector_linear (m : M4 K) (u v : V3 K) (s : K) :
     ∃ f : V3 K → V3 K, (∀ w, t_m4_transform_vector (envL (m.toList ++ w.toList)) = .okS (f w).toList) ∧
